@@ -444,7 +444,7 @@ impl Prop for C05Prop {
         vec![Section {
             name: "histories",
             kind: SectionKind::Random {
-                cases: tier.pick(500, 10_000),
+                cases: tier.pick(500, 4_000),
                 maxlen: 6000,
             },
             exhaustive: false,
@@ -452,7 +452,7 @@ impl Prop for C05Prop {
         }, Section {
             name: "includes_and_threads",
             kind: SectionKind::Random {
-                cases: tier.pick(150, 3_000),
+                cases: tier.pick(150, 1_500),
                 maxlen: 60,
             },
             exhaustive: false,
@@ -460,7 +460,7 @@ impl Prop for C05Prop {
         }, Section {
             name: "let_functions",
             kind: SectionKind::Random {
-                cases: tier.pick(120, 3_000),
+                cases: tier.pick(120, 1_500),
                 maxlen: 200,
             },
             exhaustive: false,
